@@ -30,7 +30,9 @@ CONTEXTS = [
     "%s", "try %s catch .", "[%s]", "first(%s)", "[limit(2; %s)]", "reduce %s as $x (0; . + ($x | length))", "foreach %s as $x (0; . + 1; [$x, .])", "{a: %s}", "{(%s | tojson): 1}",
     "[.[]? | %s]", "%s as [$t] | $t", "def g(f): [f, f]; g(%s)", "label $l | (%s, break $l, 1)", "(%s)?", "[%s] | length", ". as $v | $v | %s", "%s | .[0]", "[path(%s)?]", "if %s then 1 else 2 end",
     "(%s) // \"alt\"", "[%s, %s]",
+    "[path(%s)]", "path(%s)", "try path(%s) catch \"invalid\"", "[paths] as $p | [path(%s | .a?)?]", "(%s) |= 1", "try ((%s) |= 1) catch \"invalid\"", "[path(.. | %s)?] | length", "del(%s)?", "path(first(%s))",
 ]
+PATHY = [{"a": {"b": {"c": 1}}, "d": [0, [1]]}, {"a": "boom"}, {"a": None}, [{"a": 1}], {"a": [1, 2]}, None]
 CALLS = ["cf", "cf(1)", "cf(1; 2)", "cf(1, 2; 3, 4)", "cf(.; .a?)", "cf(\"boom\")", "cf(1; \"boom\")", "cf((1, \"boom\", 2))", "cf(empty)", "cf(cf(1))", "cf(error(\"arg\"))", "cf(.[]?)", "cf(1; 2; 3)",
          "cfi", "cfi(1)", "cfi(1, 2)", "cfi(1; \"boom\"; 3)", "cfi(empty)", "cfi(cfi(1))", "cfi(.a?)", "[cfi(1; 2)] | cf(.)", "cf([cfi(1)])"]
 
@@ -144,11 +146,14 @@ def run(tier, seed, replay):
         rep.cov["input_iterator_verdicts"] = counters
         # ---------------- (iii) custom functions vs equivalent definitions
         ccases, dcases = [], []
-        for _ in range(500 if quick else 12000):
+        # every calling context x every call form (complete), then random repetitions with other registrations and inputs
+        combos = [(ctx, call) for ctx in CONTEXTS for call in CALLS]
+        pathy = [jqgen.V(x) for x in PATHY]
+        for k in range(len(combos) + (200 if quick else 12000)):
             regs, iregs = r.choice(regsets), r.choice([[[0, 3, "I"]], [[0, 1, "I"], [1, 3, "J"]], [[0, 3, "I"], [2, 2, "K"]]])
-            ctx, call = r.choice(CONTEXTS), r.choice(CALLS)
+            ctx, call = combos[k] if k < len(combos) else (r.choice(CONTEXTS), r.choice(CALLS))
             src = ctx.replace("%s", call)
-            inp = r.choice(uni)
+            inp = r.choice(pathy) if "path" in ctx or "|=" in ctx or "del(" in ctx else r.choice(uni)
             ccases.append({"id": len(ccases), "k": "custom", "src": src, "regs": regs, "iregs": iregs, "input": inp})
             dcases.append({"id": len(dcases), "src": jq_defs(regs, iregs) + src, "inputs": [inp]})
         cres = vc.run_restartable([vh, "caps"], ccases, work, "custom")
@@ -177,10 +182,6 @@ def run(tier, seed, replay):
                 if x["out"] or ex:
                     rep.nontrivial([c["src"], c["regs"], c["iregs"], c["input"]])
                 rep.sample({"query": c["src"], "registrations": c["regs"], "outputs": [jqgen.unV(v) for v in x["out"]][:4]})
-                continue
-            known = next((k for k in rep.known if k.get("classifier", {}).get("impl") == "custom_in_path" and "path(" in c["src"]), None)
-            if known:
-                rep.known_finding(known["id"], "%r: Go function %s, jq definition %s" % (c["src"], [jqgen.unV(v) for v in x["out"]] or ex, [jqgen.unV(v) for v in run_["out"]] or ey))
                 continue
             rep.violation("a Go function is not interchangeable with the equivalent jq definition: %r on %s: callback gives %s err=%s, definition gives %s err=%s" % (
                 c["src"], evalfam.show(c["input"]), [jqgen.unV(v) for v in x["out"]], ex, [jqgen.unV(v) for v in run_["out"]], ey), {"family": "caps", "case": c, "actual": x, "expected": run_})
